@@ -206,8 +206,11 @@ func classOf(impl string) string {
 	if parts := strings.Split(c, ","); len(parts) >= 2 {
 		c = parts[1]
 	}
-	if len(c) > 24 {
-		c = c[:24]
+	if strings.HasPrefix(c, "#") {
+		return "long-bytes"
+	}
+	if len(c) > 16 {
+		return "bytes"
 	}
 	return c
 }
